@@ -653,13 +653,17 @@ class ExpressionValue(Value):
             right = -self.right.int if self.right.is_negative() else self.right.int
 
             if self.operation == "+":
-                self.value = NumericValue("{}".format(left + right), mode=mode)
+                result = left + right
             if self.operation == "-":
-                self.value = NumericValue("{}".format(left - right), mode=mode)
+                result = left - right
             if self.operation == "*":
-                self.value = NumericValue("{}".format(int(left * right)), mode=mode)
+                result = int(left * right)
             if self.operation == "/":
-                self.value = NumericValue("{}".format(int(left / right)), mode=mode)
+                result = int(left / right)
+            if not 0 <= result <= 255:
+                # The result only fits a direct operand when it is a single byte
+                mode = ExplicitAddressingMode.EXTENDED
+            self.value = NumericValue("{}".format(result), mode=mode)
             return self.value
 
         if self.left.is_address() or self.right.is_address():
